@@ -94,7 +94,16 @@ pub fn usize_load(a: &AtomicUsize, o: Ordering) -> usize {
         let p = a as *const AtomicUsize as usize;
         if p == GEN_ADDR {
             if ENV_ON {
-                *rawu(a) = kani::any();
+                // GEN_BUDGET bounds how often a writer flips the generation during the call (usize::MAX: unbounded)
+                if GEN_BUDGET == usize::MAX {
+                    *rawu(a) = kani::any();
+                } else if GEN_BUDGET > 0 {
+                    let v: usize = kani::any();
+                    if v != *rawu(a) {
+                        GEN_BUDGET -= 1;
+                    }
+                    *rawu(a) = v;
+                }
             }
             ev(GEN_LOAD, 0, *rawu(a), Some(o));
         } else if let Some(s) = slot_of(a) {
@@ -118,6 +127,7 @@ pub fn usize_load(a: &AtomicUsize, o: Ordering) -> usize {
         *rawu(a)
     }
 }
+pub static mut GEN_BUDGET: usize = usize::MAX;
 pub static mut SWAP_ASSUMED: usize = 0; // write_barrier harness: the swap happened before entry
 
 pub fn usize_fetch_add(a: &AtomicUsize, v: usize, o: Ordering) -> usize {
@@ -260,6 +270,41 @@ hl_stubs! {
             ENV_ON = false;
         }
         kani::cover!(slot == 1, "C01.cover: reader on slot 1");
+        std::mem::forget(hl);
+    }
+}
+
+// HalfLock::read + ReadGuard::drop : every announcement is taken back (C18: a leaked increment wedges every later writer)
+hl_stubs! {
+    #[kani::unwind(26)]
+    fn c18_read_balanced() {
+        let hl = HalfLock::new(Pl(1));
+        unsafe {
+            track(&hl);
+            ENV_ON = true; // counters hold anything; a concurrent writer flips the generation at most twice during the call
+            GEN_BUDGET = 2;
+            reset_trace();
+        }
+        let g = hl.read();
+        drop(g);
+        unsafe {
+            let mut adds = [0usize; 2];
+            let mut subs = [0usize; 2];
+            let mut i = 0;
+            while i < TN {
+                if TR[i].k == LOCK_ADD {
+                    adds[TR[i].a] += TR[i].b;
+                } else if TR[i].k == LOCK_SUB {
+                    subs[TR[i].a] += TR[i].b;
+                }
+                i += 1;
+            }
+            assert!(adds[0] == subs[0] && adds[1] == subs[1],
+                "C18.R-BALANCED: over read() and the drop of its guard, the increments and decrements of EACH reader slot cancel exactly - also when a writer flips the generation in between (a leaked increment keeps that slot non-zero forever: every later writer spins in the barrier holding the mutex)");
+            kani::cover!(adds[0] + adds[1] > 0, "C18.cover: a slot was announced");
+            ENV_ON = false;
+            GEN_BUDGET = usize::MAX;
+        }
         std::mem::forget(hl);
     }
 }
